@@ -33,6 +33,10 @@ def native_helpers(LOG, params, spec):
     return {
         "sw_timed_pulse": sw_timed_pulse,
         "limit_delay_pending": lambda: delay_state("enable_limit_reached")[0],
+        "limit_delay_untouched": lambda: not any(
+            c.get("cls") == "DelayManager" and c["method"] in ("add", "reset", "remove") and
+            (c["kwargs"].get("name", c["args"][2] if len(c["args"]) > 2 else (c["args"][0] if c["method"] == "remove" and c["args"] else None))
+             == "enable_limit_reached") for c in LOG),
         "timed_disable_pending": lambda: delay_state("timed_disable")[0],
         "timed_disable_ms": lambda: delay_state("timed_disable")[1],
         "issued_hw_enable": lambda: any(c["cls"] == "DriverPlatformInterface" and c["method"] == "enable" for c in LOG),
